@@ -524,7 +524,12 @@ func (root *Root) replaceArgVars(vars map[string]interface{}, v interface{}, at 
 			}
 		}
 	case Symbol:
-		bt := BaseType(at)
+		// Only NonNull is looked through. A symbol is not a value of a list
+		// type, a list of an enum is left to the coercer of the list.
+		bt := at
+		for nn, _ := bt.(*NonNull); nn != nil; nn, _ = bt.(*NonNull) {
+			bt = nn.Base
+		}
 		if et, _ := bt.(*Enum); et != nil {
 			if _, has := et.values.dict[string(tv)]; !has {
 				ea = append(ea, resWarnp(nil, "%s is not a valid enum value in %s", tv, et.N))
